@@ -1,4 +1,4 @@
-(* C09 driver: sess / req / reqj / gen / conn / parse / jprint / scan / url / purl / get / put / sub *)
+(* C09 driver: sess / req / reqj / gen / conn / parse / jprint / scan / url / purl / get / put / sub / getk / putk / subk *)
 open Drv
 module R = Request
 
@@ -42,7 +42,23 @@ let id_of tok = match Stdlib.String.split_on_char '.' tok with
 let id_str (a, i) = dec_of_z a ^ "." ^ dec_of_z i
 let sst_str = function None -> "ws" | Some R.Out -> "out" | Some R.InS -> "ins" | Some R.InEsc -> "esc"
 
+(* argument kinds of the pairing API (Model/RequestArgs.v): re = re-iterable, one = one-shot *)
+module A = RequestArgs
+let iter_of kind items =
+  { A.it_kind = (match kind with "re" -> A.Reiterable | "one" -> A.OneShot | _ -> failwith "kind"); A.it_items = items }
+let reqs_str rs = Stdlib.String.concat " " ("ok" :: Stdlib.List.map (fun r -> hex_of_bytes (R.render_req r)) rs)
+let rec writes_of k acc rest = if k = 0 then Stdlib.List.rev acc else
+    (match rest with
+     | a :: i :: rest1 -> let (v, rest2) = json_of rest1 in writes_of (k - 1) (((z_of_dec a, z_of_dec i), v) :: acc) rest2
+     | _ -> failwith "writes")
+
 let handle = function
+  | "getk" :: kind :: h :: ids ->
+    reqs_str (A.pairing_get_characteristics (bytes_of_hex h) (iter_of kind (Stdlib.List.map id_of ids)))
+  | "putk" :: kind :: h :: n :: rest ->
+    reqs_str (A.pairing_put_characteristics (bytes_of_hex h) (iter_of kind (writes_of (int_of_string n) [] rest)))
+  | "subk" :: kind :: h :: ev :: ids ->
+    reqs_str (A.pairing_update_subscriptions (bytes_of_hex h) (ev = "1") (iter_of kind (Stdlib.List.map id_of ids)))
   | ["req"; m; t; h; kind; b] ->
     "ok " ^ hex_of_bytes (R.render_req { R.r_meth = meth_of m; R.r_target = bytes_of_hex t;
                                           R.r_host = bytes_of_hex h; R.r_body = body_of kind b })
